@@ -236,9 +236,20 @@ def run(seed, tier, driver):
     for ci, conf in enumerate(confs):
         full = dict(S.DEFAULT_CFG); full.update(conf)
         prefixes = adversarial_prefixes(r, conf, full, tier)
+        # an earlier session with EVERY kind of peer OPEN the pool knows (the breadth-first search merges OPENs that lead to
+        # the same visible state; what an OPEN leaves behind in the run-time configuration is not visible there)
+        explicit = []
+        for lab, b in SG.message_pool(full['remote_as']):
+            if lab.startswith('open_'):
+                explicit.append([{'k': 'boot'}, {'k': 'connok', 'c': 0}, {'k': 'chunk', 'c': 0, 'hex': b.hex()},
+                                 {'k': 'chunk', 'c': 0, 'hex': SG.KEEPALIVE.hex()}])
+        if tier == 'quick' and ci >= 3:
+            explicit = explicit[::2] if ci % 2 else explicit[1::2]
+        prefixes = explicit + prefixes
         cap = 120 if ci < 3 else 50
         if tier == 'quick' and len(prefixes) > cap:
-            prefixes = prefixes[:cap // 2] + r.sample(prefixes[cap // 2:], cap // 2)
+            keep = max(cap // 2, len(explicit))
+            prefixes = prefixes[:keep] + r.sample(prefixes[keep:], min(cap // 2, len(prefixes) - keep))
         nrand = (40 if ci < 3 else 15) if tier == 'quick' else 1500
         for _ in range(nrand):
             pre = random_prefix(r, conf, full, r.choice([5, 10, 20, 40]))
